@@ -66,13 +66,44 @@ Definition has_ttl (e : entry) : bool := match e_exp e with Some _ => true | Non
 Definition dataset (d : db) : list (bytes * value * bool) :=
   map (fun ke => (fst ke, e_val (snd ke), has_ttl (snd ke))) (d_data d).
 
-(** ---- start-up (Server::new with appendonly yes, code as it is) ---- *)
-(** load (after 39510e9) feeds the file to the RESP parser in chunks: a file made of whole
-    frames - which it always is, Props/C11.v c11_file_is_whole_frames - parses; the frames are
-    handed to replay_command, which executes nothing.  A restart on the same directory
-    therefore comes up with an EMPTY dataset, no connections, no subscriptions, the file
-    kept (opened in append mode) and the engine's remembered database forgotten. *)
-Definition restart (s : server) : server :=
-  {| s_dbs := s_dbs (init_server (s_password s)); s_trk := s_trk (init_server (s_password s));
+(** ---- start-up (Server::new with appendonly yes, after 831b342) ---- *)
+(** AofEngine::load runs every record of the file again, in file order, on the empty storage:
+    SELECT records choose the database, lazy expiry runs before each record, a record that is
+    refused is skipped.  The implementation executes the records through the command executor
+    that redis.call uses (EVAL through the Lua handler); this model runs them through the direct
+    handlers ([replay]) - where the executor differs from the direct handler of a command
+    (Proofs/ExecFacts.v states their parity for the catalogue of C12) recovery inherits the
+    difference; the restart tie of harness/src/c11.rs samples it.  Nothing is appended while
+    loading; connections, subscriptions, watches and the script cache are gone; the engine has
+    forgotten the database it last wrote to ([aof_boundary]). *)
+Definition restart_o (now : Z) (s : server) (log : list (list frame * option frame)) : server :=
+  {| s_dbs := s_dbs (replay_o now log); s_trk := s_trk (init_server (s_password s));
      s_conns := []; s_password := s_password s; s_aof := aof_boundary :: s_aof s;
      s_pubsub := s_pubsub (init_server (s_password s)) |}.
+(** (the oracles are for the sorted-set commands only: the f64 value of their arguments) *)
+Definition restart (now : Z) (s : server) : server := restart_o now s (no_oracle (aof_log s)).
+
+(** ---- canonical form of the file for comparison with the implementation ---- *)
+(** PEXPIREAT records carry a wall-clock time: compared by whether the deadline has passed at
+    the moment the file is read; the members of an SREM record (SPOP's outcome) come in the
+    order of the reply, which for several members is a HashSet order: sorted *)
+Definition bulk_of (f : frame) : option bytes := match f with FBulk b => Some b | _ => None end.
+Fixpoint all_bulk_list (l : list frame) : option (list bytes) :=
+  match l with
+  | [] => Some []
+  | FBulk b :: r => match all_bulk_list r with Some t => Some (b :: t) | None => None end
+  | _ => None
+  end.
+Definition canon_record (t : Z) (p : list frame) : list frame :=
+  match p with
+  | [FBulk n; FBulk k; FBulk d] =>
+      if beq n (bs "PEXPIREAT") then
+        [FBulk n; FBulk k; FBulk (match parse_i64 d with Some x => if t <? x then bs "1" else bs "0" | None => d end)]
+      else p
+  | FBulk n :: k :: ms =>
+      if beq n (bs "SREM") then
+        match all_bulk_list ms with Some l => FBulk n :: k :: map FBulk (bsort l) | None => p end
+      else p
+  | _ => p
+  end.
+Definition aof_canon_bytes (t : Z) (s : server) : bytes := aof_file (map (canon_record t) (aof_log s)).
